@@ -380,7 +380,7 @@ MANIFEST = {
     "text": "Static decision of the linearity-in-excitation clause: every field function is interpreted with the excitation tagged; B and H must have "
             "excitation degree exactly 1 (a necessary condition whose failure is a violation) and are proved linear where the derivation is a linear "
             "form with excitation-free coefficients (9 of 11 entry points today; Cylinder-diametral and CylinderSegment are reported undecided). "
-            "The collection/sumup summation clause quantifies over runtime sizes and is not decided. Round 3: structure of the two summations in getBH_level2 - sumup reduces axis 0 and no pixel aggregation follows it (typestate), the collection loop sums/deletes consistent row slices with the length from the flattener that built the rows, loop-carried row offsets accumulate, superposed sibling calls (hollow cylinder) agree, flattened collection views are not memoised without invalidation. Rounds 4-5: SUM-ORDER for Collections, SUM-LEN, SUM-KIND (plain sum), LIN-COND (no arccos/arcsin on the field path).",
+            "The collection/sumup summation clause quantifies over runtime sizes and is not decided. Round 3: structure of the two summations in getBH_level2 - sumup reduces axis 0 and no pixel aggregation follows it (typestate), the collection loop sums/deletes consistent row slices with the length from the flattener that built the rows, loop-carried row offsets accumulate, superposed sibling calls (hollow cylinder) agree, flattened collection views are not memoised without invalidation. Rounds 4-5: SUM-ORDER for Collections, SUM-LEN, SUM-KIND (plain sum), LIN-COND (no arccos/arcsin on the field path). Round 6-7: see C06 for IDX-SPACE / LOST-WRITE, which also cover the superposition plumbing of the numerical layer.",
     "design_ref": "DESIGN.md §3 C05",
     "note": "Trusted: abstract interpreter + NumPy transfer table; declared excitation parameters (polarization, current, moment).",
     "technique": "static analysis: abstract interpretation with a linearity lattice (Const/Lin/Affine/NonLin) over the dimension lattice",
